@@ -26,6 +26,7 @@ mod c15;
 mod c11; // C11
 mod c06;
 mod c08;
+mod c09;
 
 use std::io::{BufRead, Write};
 
@@ -44,6 +45,7 @@ fn main() {
             let out = std::io::stdout();
             let mut out = std::io::BufWriter::new(out.lock());
             let lines = match prop {
+                "C09" => c09::gen(tier, seed),
                 "C08" => c08::gen(tier, seed),
                 "C06" => c06::gen(tier, seed),
                 "C11" => c11::gen(tier, seed), // C11
